@@ -15,4 +15,5 @@ def run(ctx):
         ctx, "C15", scenarios=[2, 3, 4, 8], impls=['basicmutable', 'overlay-basic', 'overlay-mutable', 'overlay-empty'],
         sections=['refs', 'areas', 'rels', 'colls', 'hang'],
         meta_rule='every transition of scenarios 3-4 executed via its shortest prefix on 4 world constructions + random walks',
-        assumptions=[])
+        assumptions=[],
+        focused=(100, 1500))
